@@ -6,7 +6,9 @@ import (
 	"os"
 	"path/filepath"
 	"sort"
+	"strconv"
 	"strings"
+	"syscall"
 
 	"github.com/hashicorp/go-slug/sourcebundle"
 )
@@ -101,14 +103,48 @@ func firstDiffLine(a, b string) string {
 	return ""
 }
 
+// treeDiffLine: firstDiffLine of two tree listings, with the other side's line for the same path next to it
+func treeDiffLine(before, after string) string {
+	d := firstDiffLine(before, after)
+	side, other := "only before: ", after
+	if strings.HasPrefix(d, "only after: ") {
+		side, other = "only after: ", before
+	}
+	line := strings.TrimPrefix(d, side)
+	for _, kind := range []string{" d ", " f ", " l "} {
+		if i := strings.Index(line, kind); i > 0 {
+			name := line[:i]
+			for _, l := range strings.Split(other, "\n") {
+				for _, k2 := range []string{" d ", " f ", " l "} {
+					if strings.HasPrefix(l, name+k2) {
+						if side == "only before: " {
+							return "before: " + line + " / after: " + l
+						}
+						return "before: " + l + " / after: " + line
+					}
+				}
+			}
+			break
+		}
+	}
+	return d
+}
+
 func init() {
 	lanes["bundle-roundtrip"] = func(cfg *Config, rep *Report) {
-		rep.Rule = "error-free scripted worlds (as in the builder lane; package trees with an empty directory, 0755/0600 files, an in-package relative link, a non-ASCII name, and - for half of the contents - a rule file re-including .terraform); the finished bundle is (a) opened again with OpenDir, (b) written with WriteArchive and extracted with ExtractArchive into another directory; compared: all accessors, ChecksumV1, every lookup relative to the root, recursive tree listing; non-trivial = has a registry package or metadata; distinct by (world, ops)"
+		rep.Rule = "error-free scripted worlds (as in the builder lane; package trees with an empty directory, 0755/0600 files, an in-package relative link, a non-ASCII name, and - for half of the contents - a rule file re-including .terraform); the finished bundle is (a) opened again with OpenDir, (b) written with WriteArchive and extracted with ExtractArchive into another directory; compared: all accessors, ChecksumV1, every lookup relative to the root, recursive tree listing (modes included); with -umask the re-opening, archiving and extraction run under that umask (the world is built under 022); non-trivial = has a registry package or metadata; distinct by (world, ops)"
 		r := NewRng(cfg.Seed)
 		richContent = true
 		defer func() { richContent = false }()
+		// -umask: the scripted world is a fixture (package trees with 0755/0750 directories, 0755/0600 files)
+		// and is built into a bundle under the usual 022; the consumer's side - opening the directory again,
+		// WriteArchive, ExtractArchive into another directory - runs under the given umask (seed C09-f:
+		// an extracted 0755 directory left at 0755 &^ umask). The lane has no model counterpart; runs
+		// under another umask than 022 are counted as outside-model:umask like those of the unpack lane.
+		umask := laneUmask(cfg)
+		syscall.Umask(022)
 		done := 0
-		runWorld := func(w *BWorld, ops []BOp) bool {
+		runWorldUnder := func(w *BWorld, ops []BOp, umask int) bool {
 			target := filepath.Join(cfg.Work, fmt.Sprintf("rt%05d", done))
 			os.MkdirAll(target, 0755)
 			env := newEnv(w)
@@ -118,7 +154,13 @@ func init() {
 				return false
 			}
 			done++
-			c := &bCase{World: w, Ops: ops}
+			// the recorded input carries the umask (flattened next to world/ops; a replay reads it back)
+			um := ""
+			if umask != 022 {
+				um = fmt.Sprintf("%03o", umask)
+				rep.Count("outside-model:umask")
+			}
+			c := &rtCase{bCase: &bCase{World: w, Ops: ops}, Umask: um}
 			nt := len(w.Regs) > 0
 			for _, p := range w.Pkgs {
 				if p.HasMeta {
@@ -131,6 +173,8 @@ func init() {
 			fail := func(what string) {
 				rep.AddOracle(OracleFailure{Property: "C09", Lane: "bundle-roundtrip", What: what, Input: c})
 			}
+			syscall.Umask(umask)
+			defer syscall.Umask(022)
 			// (a) re-open
 			if b2, err := sourcebundle.OpenDir(target); err != nil {
 				fail("a finished bundle directory cannot be opened again: " + err.Error())
@@ -145,6 +189,7 @@ func init() {
 			} else {
 				other := filepath.Join(cfg.Work, fmt.Sprintf("rx%05d", done))
 				os.MkdirAll(other, 0755)
+				os.Chmod(other, 0755) // what the harness creates stays traversable under any umask
 				b3, err := sourcebundle.ExtractArchive(bytes.NewReader(buf.Bytes()), other)
 				if err != nil {
 					fail("ExtractArchive of the bundle's own archive fails: " + err.Error())
@@ -153,7 +198,7 @@ func init() {
 						fail("extracted bundle differs from the original: " + firstDiffLine(strings.ReplaceAll(want, " ", "\n"), strings.ReplaceAll(got, " ", "\n")))
 					}
 					if gotTree := treeListing(other); gotTree != wantTree {
-						fail("files of the extracted bundle differ: " + firstDiffLine(wantTree, gotTree))
+						fail("files of the extracted bundle differ: " + treeDiffLine(wantTree, gotTree))
 					}
 				}
 				rep.Count("archived")
@@ -165,9 +210,20 @@ func init() {
 			return true
 		}
 		// exact replay (-case): the recorded world and Add calls go first
+		runWorld := func(w *BWorld, ops []BOp) bool { return runWorldUnder(w, ops, umask) }
 		if rc := loadReplayedBCase(cfg, rep, "bundle-roundtrip"); rc != nil {
 			rep.BeginReplay()
-			if !runWorld(rc.World, rc.Ops) {
+			// the replayed case runs under the umask it was recorded under
+			ru := umask
+			var ext struct {
+				Umask string `json:"umask"`
+			}
+			if loadReplayInput(cfg, "bundle-roundtrip", &ext) && ext.Umask != "" {
+				if v, err := strconv.ParseUint(ext.Umask, 8, 12); err == nil {
+					ru = int(v) & 0777
+				}
+			}
+			if !runWorldUnder(rc.World, rc.Ops, ru) {
 				rep.Replayed.Note = "the build of the recorded world fails on this tree (the lane only judges finished bundles)"
 			}
 			rep.EndReplay()
@@ -178,6 +234,13 @@ func init() {
 			runWorld(w, ops)
 		}
 	}
+}
+
+// rtCase: the recorded input of this lane = the builder lane's case (world, ops) plus the umask of the
+// consumer's side ("" = 022).
+type rtCase struct {
+	*bCase
+	Umask string `json:"umask,omitempty"`
 }
 
 func chmodAll(root string) {
